@@ -204,9 +204,17 @@ def genMacro (st : GS) : Gen (Macro × GS) := do
   let i ← rnd 3
   let a := st.w.get i
   let sz := a.size
-  let kind ← rnd 12
+  let kind ← rnd 13
   let n ← rnd 9
   match kind with
+  | 12 =>     -- emplace / insert through a non-owner handle onto a(off,len), len ≥ 1, ending before the last element:
+              -- "No elements can be inserted into a non-owner array" (SimTK_ERRCHK_ALWAYS) — nothing may change
+    if sz < 2 then return ({ line := s!"I w viewSelf {i} 0 0 0", ops := [.on i (.viewAssign 0 [])] }, st) else
+    let len0 ← rnd (sz - 1); let len := len0 + 1
+    let off ← rnd (sz - len)
+    let how ← rnd 3
+    let (v, st) := fresh st
+    return ({ line := s!"I w shareEmplace {i} {off} {len} {how} {v}", ops := [], forceThrown := true }, st)
   | 10 =>     -- non-owner Array_ handle (DontCopy constructor / shareData) onto a(off,len): fill / assign(n,v) through it
     let off ← rnd (sz + 1); let len ← rnd (sz - off + 1)
     let (v, st) := fresh st
